@@ -283,7 +283,7 @@ def preload():
     with warnings.catch_warnings():
         warnings.simplefilter('ignore')
         for m in ['msdm', 'msdm.core.distributions', 'msdm.core.table', 'msdm.core.mdp', 'msdm.core.pomdp',
-                  'msdm.core.semimdp', 'msdm.core.mdp.deterministic_shortest_path', 'msdm.core.pomdp.beliefmdp',
+                  'msdm.core.semimdp', 'msdm.core.semimdp.semimdp', 'msdm.core.semimdp.option', 'msdm.core.distributions.utils', 'msdm.core.mdp.deterministic_shortest_path', 'msdm.core.pomdp.beliefmdp',
                   'msdm.core.pomdp.finitestatecontroller', 'msdm.core.pomdp.alphavectorpolicy',
                   'msdm.core.stochasticgame', 'msdm.core.assignment', 'msdm.core.utils.dictutils',
                   'msdm.core.utils.gridstringutils',
